@@ -26,6 +26,8 @@ def plan(tier, seed):
 
 def inconclusive(counters, evaluations, tier):
     out = []
+    if counters.get('curated_shapes_dropped', 0):
+        out.append('%d curated grammar(s) were dropped by the generator-side analysis and never ran' % counters['curated_shapes_dropped'])
     if counters.get('shift_pairs', 0) == 0:
         out.append('shift relation evaluated nothing')
     for k in ('outcome:value', 'outcome:partial', 'outcome:error'):
@@ -119,6 +121,10 @@ TEMPLATE_ENTRIES = [('Rep', (0,)), ('Rep', (1,)), ('Rep', (2,)), ('Tagged', ('x'
 def run_one(rec, G, tag, alphabet, maxlen, bytes_mode=False, shiftable=True, named=False, extra_entries=()):
     if not gen.well_formed(G):
         rec.drop()
+        if isinstance(tag, tuple) and tag and tag[0] == 'curated':
+            # a curated grammar must never disappear silently
+            rec.count('curated_shapes_dropped')
+            rec.note('curated grammar dropped by the well-formedness analysis: %s' % (tag,))
         return
     if named:
         G = dict(G, name=diff.unique_name('vt_c08'))
